@@ -279,11 +279,11 @@ RULES["C12"] = ("cases: histories of header-builder calls; model = last-wins slo
                 "multiset of walked tags == model. distinct = hash of (architecture, call sequence, request count).")
 
 # ------------------------------------------------------------------ C08 ----
-C08_ENGINES = ["dev", "rel", "nd-dev", "nd-rel"]
+C08_ENGINES = ["dev", "rel", "nd-dev", "nd-rel", "al-dev", "al-rel"]
 
 
 def c08_post(results, tier, seed, logdir):
-    """E5: compare the block hashes of the four configurations; on a mismatch
+    """E5: compare the block hashes of the six configurations; on a mismatch
     re-run that block with full transcripts and report the first differing case."""
     import subprocess
     from engines import run_cmd, engine_env, HARNESS
@@ -297,7 +297,7 @@ def c08_post(results, tier, seed, logdir):
     mism = 0
     for (shard, nshards), per in sorted(by_shard.items()):
         if set(per) != set(C08_ENGINES):
-            inc.append(f"C08 shard {shard}/{nshards}: not all four configurations ran ({sorted(per)})")
+            inc.append(f"C08 shard {shard}/{nshards}: not all configurations ran ({sorted(per)})")
             continue
         if any(len(r.summaries) != 1 or r.crashes for r, _ in per.values()):
             inc.append(f"C08 shard {shard}/{nshards}: a configuration restarted or crashed; block comparison skipped for this shard")
@@ -354,11 +354,11 @@ PLANS["C08"] = dict(
     quick=[run(e, max_cases=120000, budget_s=70, timeout_s=900) for e in C08_ENGINES],
     thorough=[run(e, max_cases=3000000, budget_s=900, timeout_s=3400) for e in C08_ENGINES],
     post=c08_post,
-    technique="runtime monitoring: cross-configuration transcript differencing (same generated cases in dev/release x default/no-default-features builds, canonical address-free transcripts compared by block hash)",
+    technique="runtime monitoring: cross-configuration transcript differencing (same generated cases in dev/release x default / alloc-only / no-default-features builds, canonical address-free transcripts compared by block hash)",
 )
 RULES["C08"] = ("cases (hash-selected mix): boot informations conformant/corrupted/blind-mutated (3/10), headers conformant/corrupted (2/10), declared sizes below/around each header size (total_size 0..=16, header length 0..=32, tag sizes 0..=16 in both crates) (1/10), "
                 "all 256 framebuffer type bytes (1/10), calc_checksum at extreme arguments and find_header on generated images (1/10), DynSizedStructure::ref_from_slice for the crates' four header types (1/10), hostile standalone tags (1/10). "
-                "Per case a canonical transcript (load verdict, walk, every getter and stored-field accessor, every extent as region offsets, outcomes as Val/Err(kind)/Panic) is hashed; the four configurations must agree block by block (64 cases). "
-                "Budget cut-offs make the configurations cover different prefixes; only blocks present in all four are compared. distinct = hash of (transcript, case index) for cases that reached a decoder.")
-ASSUMPTIONS["C08"] = ["all four binaries are built from the same harness source and run the same deterministic case generator (seeded by VERIF_SEED)",
+                "Per case a canonical transcript (load verdict, walk, every getter and stored-field accessor, every extent as region offsets, outcomes as Val/Err(kind)/Panic) is hashed; the six configurations ({dev, release} x {default features, `alloc` only, no features}) must agree block by block (64 cases). "
+                "Budget cut-offs make the configurations cover different prefixes; only blocks present in all six are compared. distinct = hash of (transcript, case index) for cases that reached a decoder.")
+ASSUMPTIONS["C08"] = ["all six binaries are built from the same harness source and run the same deterministic case generator (seeded by VERIF_SEED)",
                       "header-crate inputs keep enumerated fields defined (C09's premise)"]
